@@ -313,6 +313,7 @@ def run(res: Results, idx: Index, tier: str) -> None:
     rule_g(res, idx)
     rule_i(res, idx)
     rule_j(res, idx)
+    rule_k(res, idx)
     if not getattr(res, "_nested_xref", False):
         # the declared element type of an input follows the dtype the input specification is normalised to: a normalisation
         # step that consults the ambient x64 flag (outside the export's precision scope) narrows 64-bit example arrays in a
@@ -612,3 +613,87 @@ def rule_j(res: Results, idx: Index) -> None:
                 else:
                     res.ok("R-C05j", site, key, f"`{src(x, 60)}`: not a pair of literal integer types", fi.qualname)
     res.analysed["precision_flag_conditionals"] = n
+
+
+# ---------------------------------------------------------------------------------------------- R-C05k
+def _mentions_complex(n: ast.AST) -> bool:
+    t = src(n, 4000)
+    return "COMPLEX64" in t or "COMPLEX128" in t or "complexfloating" in t or "iscomplexobj" in t
+
+
+def rule_k(res: Results, idx: Index) -> None:
+    """"complex as a trailing pair of reals" is a statement about the interface, not about the plugins that happen to consume a
+    complex tensor: plugins re-type a complex graph input in place when they use it, so an input nobody uses (or a complex
+    constant returned as a result leaf, which no plugin ever sees) needs a step of its own.  Decided:
+      (inputs)  the function that lowers the equations of the top-level jaxpr and then binds the outputs calls, between the two and
+                unconditionally, a function that loops over `<…>.builder.inputs`, tests for a complex element type and assigns
+                `.type` and `.shape`;
+      (outputs) in `add_outputs_from_vars`, the branch that declares a complex result as a pair also handles the payload of a
+                constant (a call to a function that reads and assigns `const_value`, or such an assignment in the branch)."""
+    res.rule("R-C05k", "complex tensors that no plugin packed (unused inputs, constant result leaves) are declared and stored as a trailing pair of reals", floor=2)
+    CAPI_ = "jax2onnx/converter/conversion_api.py"
+    CTXF = "jax2onnx/converter/ir_context.py"
+    m = idx.module(CAPI_)
+    hosts = [fi for fi in m.funcs.values() if any(isinstance(c, ast.Call) and (call_name(c) or "").split(".")[-1] == "_lower_jaxpr_equations" for c in walk_no_nested(fi.node))
+             and any(isinstance(c, ast.Call) and (call_name(c) or "").split(".")[-1] == "_bind_jaxpr_outputs" for c in walk_no_nested(fi.node))]
+    if not hosts:
+        raise AnalysisError("R-C05k: the function that lowers the top-level equations and binds the outputs was not found")
+
+    def is_input_packer(fn: ast.AST) -> bool:
+        loops = [lp for lp in ast.walk(fn) if isinstance(lp, ast.For) and src(lp.iter, 60).endswith("builder.inputs")]
+        for lp in loops:
+            sets = {t.attr for a in ast.walk(lp) if isinstance(a, ast.Assign) for t in a.targets if isinstance(t, ast.Attribute)}
+            calls_pack = any(isinstance(c, ast.Call) and (call_name(c) or "").split(".")[-1] == "pack_native_complex" for c in ast.walk(lp))
+            if _mentions_complex(lp) and ({"type", "shape"} <= sets or calls_pack):
+                return True
+        return False
+
+    ctxm = idx.module(CTXF)
+    for fi in hosts:
+        key = f"{CAPI_}::{fi.qualname}::unconsumed-complex-inputs"
+        found = None
+        blocks = [b for n_ in ast.walk(fi.node) for b in (getattr(n_, "body", None), getattr(n_, "orelse", None), getattr(n_, "finalbody", None)) if isinstance(b, list)]
+        for blk in blocks:
+            names = [((call_name(s.value) or "").split(".")[-1] if isinstance(s, ast.Expr) and isinstance(s.value, ast.Call) else "") for s in blk]
+            if "_lower_jaxpr_equations" not in names:
+                continue
+            i0 = names.index("_lower_jaxpr_equations")
+            i1 = names.index("_bind_jaxpr_outputs") if "_bind_jaxpr_outputs" in names else len(blk)
+            for s, nm in list(zip(blk, names))[i0 + 1:i1]:
+                if not nm:
+                    continue
+                cands = [g for g in list(ctxm.funcs.values()) + list(m.funcs.values()) if g.name == nm]
+                if any(is_input_packer(g.node) for g in cands):
+                    found = (s, nm)
+        if found:
+            res.ok("R-C05k", f"{CAPI_}:{found[0].lineno}", key, f"`{found[1]}` re-types complex graph inputs that are still native after lowering, before the outputs are bound", fi.qualname)
+        else:
+            anywhere = [c for c in ast.walk(fi.node) if isinstance(c, ast.Call) and any(is_input_packer(g.node) for g in list(ctxm.funcs.values()) + list(m.funcs.values()) if g.name == (call_name(c) or "").split(".")[-1])]
+            if anywhere:
+                res.unresolved("R-C05k", f"{CAPI_}:{anywhere[0].lineno}", key, "a complex-input packing step exists but is not an unconditional statement between lowering and output binding", fi.qualname)
+            else:
+                res.violation("R-C05k", f"{CAPI_}:{fi.node.lineno}", key, "after the equations are lowered nothing re-types complex graph inputs that no plugin consumed: an unused complex argument stays a native COMPLEX64/128 input "
+                              "(the property promises a trailing pair of reals; ONNX Runtime refuses the model)", fi.qualname)
+    fout = idx.func(CTXF, "IRContext.add_outputs_from_vars")
+    key = f"{CTXF}::{fout.qualname}::complex-constant-payload"
+    branches = [i for i in ast.walk(fout.node) if isinstance(i, ast.If) and _mentions_complex(i.test) and any(isinstance(a, ast.Assign) and any(isinstance(t, ast.Attribute) and t.attr == "type" for t in a.targets) for a in ast.walk(i))]
+    if not branches:
+        raise AnalysisError("R-C05k: add_outputs_from_vars has no branch that declares complex results (moved?)")
+    br = branches[0]
+
+    def handles_payload(nodes: List[ast.AST], depth: int = 0) -> bool:
+        for n_ in nodes:
+            for x in ast.walk(n_):
+                if isinstance(x, ast.Assign) and any(isinstance(t, ast.Attribute) and t.attr == "const_value" for t in x.targets):
+                    return True
+                if depth < 2 and isinstance(x, ast.Call):
+                    nm = (call_name(x) or "").split(".")[-1]
+                    for g in ctxm.funcs.values():
+                        if g.name == nm and g is not fout and handles_payload(list(g.node.body), depth + 1):
+                            return True
+        return False
+
+    if handles_payload(list(br.body)):
+        res.ok("R-C05k", f"{CTXF}:{br.lineno}", key, "the complex branch stores a constant's payload as the pair it declares", fout.qualname)
+    else:
+        res.violation("R-C05k", f"{CTXF}:{br.lineno}", key, "the complex branch re-stamps type and shape of the result value only: a complex constant returned as a result leaf is declared FLOAT [..., 2] over a COMPLEX payload", fout.qualname)
